@@ -761,3 +761,28 @@ def slice_index_range(ctx, args, st):
                 if a is None or a > b: yield s2, 'panic', 'slice index starts past its end'; continue
                 yield s2, 'ret', s2.ref(VecV(v.items[a:b], 'slice'))
     return g()
+
+
+@model(OPT + r'inspect::<')
+def opt_inspect(ctx, args, st):
+    o, f = args
+    if o.variant == 'None': return ret(st, NONE)
+    def g():
+        r = st.ref(o.items[0])
+        for s2, kind, val in ctx.ex.call_value(f, [r], st, ctx.depth):
+            if kind != 'ret': yield s2, kind, val
+            else: yield s2, 'ret', Some(s2.deref(r))
+    return g()
+
+
+@model(r'^core::slice::<impl \[.*\]>::(sort_unstable|sort)$')
+def slice_sort_trivial(ctx, args, st):
+    """sorting a slice of at most one element (the only case modelled here); longer slices need the comparator-driven model"""
+    r = vec_ref(st, args[0]); v = st.deref(r)
+    if len(v.items) <= 1: return ret(st, UNIT)
+    cs = [st.deref_all(x) for x in v.items]
+    if all(isinstance(x, StrV) and x.concrete() is not None for x in cs):
+        order = sorted(range(len(cs)), key=lambda i: cs[i].concrete().encode('utf-8'))
+        st.store(r, VecV([v.items[i] for i in order], v.ty))
+        return ret(st, UNIT)
+    raise Unsupported('slice::sort on symbolic elements')
